@@ -533,6 +533,27 @@ pub fn run(cfg: &Cfg) -> Report {
             }
         }
     }
+    // every operator (binary, prefix, assignment) between the variable `a` — bound to each type by the
+    // contexts — and each constant that looks neutral, absorbing or constant-foldable for some type, in both
+    // orders and nested: what a precompile-time simplification would rewrite, string level and tree level
+    // must still agree on (`a * 1` is a type error for a boolean `a`, not `a`)
+    {
+        let ctxs = contexts();
+        let consts = ["0", "1", "0.0", "1.0", "-1", "2", "\"\"", "\" s \"", "true", "false", "()", "(1, 2)"];
+        let ops = ["+", "-", "*", "/", "%", "^", "==", "!=", "<", ">", "<=", ">=", "&&", "||"];
+        for k in consts {
+            for op in ops {
+                for src in [format!("a {op} {k}"), format!("{k} {op} a"), format!("{k} {op} {k}"), format!("(a {op} {k}) {op} {k}"), format!("f(a {op} {k})"), format!("a {op} {k}; a"), format!("b = a {op} {k}; b"), format!("a {op}= {k}; a")] {
+                    check(&src, &ctxs, &mut stats);
+                    stats.count("constant-operand-sources");
+                }
+            }
+            for src in [format!("-{k}"), format!("!{k}"), format!("-(-{k})"), format!("!!{k}"), format!("len({k})"), format!("if({k}, a, 1)"), format!("if(true, {k}, a)"), format!("({k}; a)"), format!("({k}, a)")] {
+                check(&src, &ctxs, &mut stats);
+                stats.count("constant-operand-sources");
+            }
+        }
+    }
     stats.transitions = stats.evaluations;
     for src in ["a = 1.5 ; a", "f ( 1 , true )", "1 + &", "( a , \"s\" )"] {
         stats.sample(json!({"source": src, "eval": format!("{:?}", eval(src)), "eval_number": format!("{:?}", eval_number(src)), "eval_tuple": format!("{:?}", eval_tuple(src))}));
@@ -545,7 +566,7 @@ pub fn run(cfg: &Cfg) -> Report {
     Report {
         property: ID,
         level: "model_checking",
-        rule: format!("every token sequence of length <= {max} over the {a}-token alphabet `1 1.5 \" s \" true a f len ( ) , ; + = ! & &&` (well-formed or not; reaches all six result types and every error stage) x 13 contexts (fresh; a bound to each of the six types and to the empty tuple; user function f; builtins disabled; a user function shadowing the builtin `len`; a context holding variables named like the source text itself) x all 24 string-level entry points (run twice) + the 24 Node methods + build_operator_tree; oracle: each typed result is the projection of the matching untyped result, `_mut` variants leave the same context, tree level = string level, context-free = fresh HashMapContext, precompile error passed through by all 48; plus every history of 2 (quick) / 3 (thorough) context-free calls over a pool of 21 sources (assignments, assignments followed by a failure, reads, retypes) run back to back on one thread: the last call must behave as evaluation in a fresh context; plus scaling families (sums, products, concatenations, negations, tuples, chains of assignments, nestings, call chains of n elements for n in 1..20 and up to 129 / 1..40 and up to 400) through all entry points. States = sources, transitions = entry-point executions. Non-trivial = sources of >= 2 tokens (each enumerated once)"),
+        rule: format!("every token sequence of length <= {max} over the {a}-token alphabet `1 1.5 \" s \" true a f len ( ) , ; + = ! & &&` (well-formed or not; reaches all six result types and every error stage) x 13 contexts (fresh; a bound to each of the six types and to the empty tuple; user function f; builtins disabled; a user function shadowing the builtin `len`; a context holding variables named like the source text itself) x all 24 string-level entry points (run twice) + the 24 Node methods + build_operator_tree; oracle: each typed result is the projection of the matching untyped result, `_mut` variants leave the same context, tree level = string level, context-free = fresh HashMapContext, precompile error passed through by all 48; plus every history of 2 (quick) / 3 (thorough) context-free calls over a pool of 21 sources (assignments, assignments followed by a failure, reads, retypes) run back to back on one thread: the last call must behave as evaluation in a fresh context; plus every operator between the variable `a` and each of 12 constants that look neutral, absorbing or foldable (`0`, `1`, `0.0`, `1.0`, `\"\"`, `true`, `false`, `()` ...) in both orders, nested, assigned and as arguments; plus scaling families (sums, products, concatenations, negations, tuples, chains of assignments, nestings, call chains of n elements for n in 1..20 and up to 129 / 1..40 and up to 400) through all entry points. States = sources, transitions = entry-point executions. Non-trivial = sources of >= 2 tokens (each enumerated once)"),
         nontrivial_set: "counter:nontrivial-distinct",
         exhaustive: true,
         bound_completed: format!("token sequences of length {max}"),
